@@ -3,8 +3,9 @@ import LeptosModel.Proofs.OwnerCtx
 # Proofs/OwnerEff — an effect whose arena entry is gone never runs again (C08)
 
 `K e a st` : between `a` and `st` no run of effect `e` was logged and the arena key of effect `e`
-is the same.  Every function of the reactive layer keeps `K`, except `runEffect e`, which `pollEff`
-only reaches when the entry is live.
+is the same.  Every function of the reactive layer keeps `K`, except the functions that run the body
+of `e` (`runEffect e`, `immUpdate e`, `runSeg e`), which are only reached while the entry is live.
+The entries are those of every kind: the effects with a task, `ImmediateEffect`s, scoped tasks.
 -/
 namespace Leptos.Owner
 
@@ -70,18 +71,61 @@ theorem rc_prim (e : Nat) {a b : Core} (hp : CorePrim a b) (hne : ∀ ev, b = lo
   | setCur cur => rfl
   | logEv ev he => exact rCount_snoc_ne e _ _ (hne ev rfl)
 
+/-- the log only grows along primitive steps -/
+def LogLe (a b : Core) : Prop := ∀ e, e ∈ a.log → e ∈ b.log
+
+theorem LogLe.frames (n : Nat) (st : Core) (fs : List Frame) : LogLe st (runFrames n st fs).1 :=
+  runFrames_rel (R := LogLe) (fun _ _ h => h) (fun _ _ _ h1 h2 e he => h2 e (h1 e he))
+    (fun st f e he => log_step_mono st f e he) n st fs
+
+theorem LogLe.prim {a b : Core} (hp : CorePrim a b) : LogLe a b := by
+  intro e he
+  cases hp with
+  | regCleanup tag nested drops => rw [regCleanup_log]; exact he
+  | newItem v => rw [newItem_log]; exact he
+  | addItemHandle k => exact he
+  | newOwnerUnder p paused hp => rw [newOwnerUnder_log]; exact he
+  | pass f hf => exact LogLe.frames _ _ _ e he
+  | provide ty v => rw [provide_log]; exact he
+  | useCtx ty => unfold useCtx; split <;> exact List.mem_append_left _ he
+  | takeCtx ty =>
+    unfold takeCtx; split
+    · simp only; rw [modOwner_log]; exact List.mem_append_left _ he
+    · exact List.mem_append_left _ he
+  | setPaused o p => unfold setPaused; rw [pauseWalk_log]; exact he
+  | setCur cur => exact he
+  | logEv ev hev => exact List.mem_append_left _ he
+
+theorem LogLe.reach {a b : Core} (h : CoreReach a b) : LogLe a b :=
+  CoreReach.rel (R := LogLe) (fun _ _ h => h) (fun _ _ _ h1 h2 e he => h2 e (h1 e he))
+    (fun _ _ hp => LogLe.prim hp) h
+
+theorem logHas_mono {a b : Core} (h : CoreReach a b) {cid : Nat} (hl : logHas cid a.log) : logHas cid b.log := by
+  obtain ⟨tag, ow, late, hm⟩ := hl
+  exact ⟨tag, ow, late, LogLe.reach h _ hm⟩
+
+
+theorem cidRan_of_logHas {st : Core} {cid : Nat} (h : logHas cid st.log) : cidRan st cid = true := by
+  obtain ⟨tag, ow, late, hm⟩ := h
+  unfold cidRan
+  rw [List.any_eq_true]
+  exact ⟨_, hm, by simp [Ev.isCid]⟩
+
 /-! ### the relation -/
 
 /-- how the record of an effect may evolve: once no strong reference is held outside the arena,
-none is acquired again and the arena key stays what it is -/
-def Frozen (er er' : EffRec) : Prop := er.held = false → er'.held = false ∧ er'.key = er.key
+none is acquired again, the arena key and the deciding cleanup stay what they are, and no run of an
+`ImmediateEffect` begins or ends -/
+def Frozen (er er' : EffRec) : Prop :=
+  er.held = false → er'.held = false ∧ er'.key = er.key ∧ er'.dropCid = er.dropCid ∧
+    immRunning er' = immRunning er
 
-theorem Frozen.refl (er : EffRec) : Frozen er er := fun h => ⟨h, rfl⟩
+theorem Frozen.refl (er : EffRec) : Frozen er er := fun h => ⟨h, rfl, rfl, rfl⟩
 theorem Frozen.trans {a b c : EffRec} (h1 : Frozen a b) (h2 : Frozen b c) : Frozen a c := by
   intro h
-  obtain ⟨hb, hk⟩ := h1 h
-  obtain ⟨hc, hk2⟩ := h2 hb
-  exact ⟨hc, hk2.trans hk⟩
+  obtain ⟨hb, hk, hd, hr⟩ := h1 h
+  obtain ⟨hc, hk2, hd2, hr2⟩ := h2 hb
+  exact ⟨hc, hk2.trans hk, hd2.trans hd, hr2.trans hr⟩
 
 structure K (e : Nat) (a st : St) : Prop where
   rc : rCount e st.log = rCount e a.log
@@ -139,6 +183,43 @@ theorem K.pushEff {e : Nat} {a st st' : St} (h : K e a st) (hl : rCount e st'.lo
   obtain ⟨er', h1, h2⟩ := h.key er her
   exact ⟨er', by rw [he]; exact getElem?_append_some h1, h2⟩
 
+/-! ### the entry of the effect is gone -/
+
+/-- the entry of effect `e` is gone: no strong reference outside the arena, the arena key (if it ever
+had one) is dead, the cleanup whose closure owned it (if any) has run, and no run of it is in progress -/
+def EffDead (st : St) (e : Nat) : Prop :=
+  ∃ er, st.effs[e]? = some er ∧ er.held = false ∧ (∀ k, er.key = some k → KeyDead st.arena k) ∧
+    (∀ cid, er.dropCid = some cid → logHas cid st.log) ∧ immRunning er = false
+
+theorem effLive_false_of_dead {st : St} {e : Nat} (h : EffDead st e) : effLive st e = false := by
+  obtain ⟨er, h1, h2, h3, h4, h5⟩ := h
+  unfold effLive; rw [h1]
+  have hk : keyLive st e er.key = false := by
+    unfold keyLive
+    cases hk : er.key with
+    | none => rfl
+    | some k => simp [(h3 k hk).get_none]
+  have hd : dropLive st er.dropCid = false := by
+    unfold dropLive
+    cases hc : er.dropCid with
+    | none => rfl
+    | some cid => simp [cidRan_of_logHas (h4 cid hc)]
+  simp [h2, hk, hd, h5]
+
+theorem EffDead.of_K {e : Nat} {a st : St} (hd : EffDead a e) (hk : K e a st) (hs : SR a st) : EffDead st e := by
+  obtain ⟨er, h1, h2, h3, h4, h5⟩ := hd
+  obtain ⟨er', h6, h7⟩ := hk.key er h1
+  obtain ⟨h8, h9, h10, h11⟩ := h7 h2
+  refine ⟨er', h6, h8, fun k hk' => ?_, fun cid hc => ?_, by rw [h11]; exact h5⟩
+  · rw [h9] at hk'
+    exact (ArenaLe.reach hs).dead _ (h3 k hk')
+  · rw [h10] at hc
+    exact logHas_mono hs (h4 cid hc)
+
+theorem EffDead.lt {st : St} {e : Nat} (h : EffDead st e) : e < st.effs.length := by
+  obtain ⟨er, h1, _⟩ := h
+  exact lt_of_getElem?_some h1
+
 /-! ### the reactive layer -/
 
 theorem k_clearSources {e : Nat} {a st : St} (h : K e a st) (me : Sub) (l : List Nat) :
@@ -149,7 +230,7 @@ theorem k_addSource {e : Nat} {a st : St} (h : K e a st) (me : Sub) (s : Nat) : 
   split
   · next e' =>
     split
-    · next er her => exact h.effs_ok rfl (set_key_ok _ _ _ _ her (fun hh => ⟨hh, rfl⟩))
+    · next er her => exact h.effs_ok rfl (set_key_ok _ _ _ _ her (fun hh => ⟨hh, rfl, rfl, rfl⟩))
     · exact h
   · split
     · exact h.same rfl rfl
@@ -202,6 +283,14 @@ theorem k_foldl {α} (e : Nat) (f : St → α → St) (hf : ∀ a st x, K e a st
   | nil => exact h
   | cons x l ih => exact ih (hf a st x h)
 
+/-- the same for a step that needs to know that `e`'s entry is dead -/
+theorem ks_foldl {α} (e : Nat) (f : St → α → St) (hsf : ∀ a st x, SR a st → SR a (f st x))
+    (hf : ∀ a st x, EffDead a e → SR a st → K e a st → K e a (f st x)) (l : List α)
+    {a st : St} (hd : EffDead a e) (hs : SR a st) (h : K e a st) : K e a (l.foldl f st) := by
+  induction l generalizing st with
+  | nil => exact h
+  | cons x l ih => exact ih (hsf a st x hs) (hf a st x hd hs h)
+
 theorem rc_cleanupOwner (e : Nat) (c : Core) (o : Nat) : rCount e (cleanupOwner c o).log = rCount e c.log :=
   rc_frames e _ _ _
 theorem rc_dropOwner (e : Nat) (c : Core) (o : Nat) : rCount e (dropOwner c o).log = rCount e c.log :=
@@ -209,26 +298,37 @@ theorem rc_dropOwner (e : Nat) (c : Core) (o : Nat) : rCount e (dropOwner c o).l
 theorem rc_disposeKey (e : Nat) (c : Core) (k : Key) : rCount e (disposeKey c k).log = rCount e c.log :=
   rc_frames e _ _ _
 
-/-- a token executor that keeps `K` -/
-def Kex (e : Nat) (ex : St → BOp → St) : Prop := ∀ (a st : St) (op : BOp), K e a st → K e a (ex st op)
+theorem k_releaseOwner {e : Nat} {a st : St} (h : K e a st) (o : Nat) : K e a (releaseOwner st o) := by
+  unfold releaseOwner
+  split
+  · exact h
+  · exact h.core (dropOwner · o) (rc_dropOwner e _ _)
+
+/-- a token executor that keeps `K` as long as `e`'s entry is dead (marking a subscriber dirty may
+run an `ImmediateEffect` at once: not `e`, which is dead) -/
+def Kex (e : Nat) (ex : St → BOp → St) : Prop :=
+  ∀ (a st : St) (op : BOp), EffDead a e → SR a st → K e a st → K e a (ex st op)
 
 /-- a run of the body of another effect `e'` -/
-theorem k_runScoped {e : Nat} {ex : St → BOp → St} (hex : Kex e ex) {a st : St} (h : K e a st)
+theorem k_runScoped {e : Nat} {ex : St → BOp → St} (hex : Kex e ex) (hsx : SRex ex) {a st : St}
+    (hd : EffDead a e) (hs : SR a st) (h : K e a st)
     (e' o b : Nat) (hne : e' ≠ e) : K e a (runScoped ex st e' o b) := by
   unfold runScoped
   simp only
   have h0 : ∀ S0 : St, S0.toCore = logEv (pushCur (cleanupOwner st.toCore o) o) (Ev.r e') →
-      S0.effs = st.effs → K e a S0 := by
+      S0.effs = st.effs → K e a S0 ∧ SR a S0 := by
     intro S0 hc he
-    refine ⟨?_, by rw [he]; exact h.key, h.ex⟩
-    rw [hc]
-    show rCount e ((cleanupOwner st.toCore o).log ++ [Ev.r e']) = _
-    rw [rCount_snoc_ne e _ _ (by intro hh; cases hh; exact hne rfl), rc_cleanupOwner]; exact h.rc
-  have key : ∀ (body : List BOp) (S0 : St), K e a S0 → ∀ S1 : St,
+    refine ⟨⟨?_, by rw [he]; exact h.key, h.ex⟩, ?_⟩
+    · rw [hc]
+      show rCount e ((cleanupOwner st.toCore o).log ++ [Ev.r e']) = _
+      rw [rCount_snoc_ne e _ _ (by intro hh; cases hh; exact hne rfl), rc_cleanupOwner]; exact h.rc
+    · unfold SR; rw [hc]
+      exact CR.logEv (CR.pushCur (CR.cleanupOwner hs _) _) _ rfl
+  have key : ∀ (body : List BOp) (S0 : St), K e a S0 ∧ SR a S0 → ∀ S1 : St,
       (∃ x, S1.toCore = popCur (logEv (List.foldl ex S0 body).toCore (Ev.s e' x)) 1) →
       S1.effs = (List.foldl ex S0 body).effs → K e a S1 := by
     intro body S0 hS0 S1 ⟨x, hc⟩ he
-    have := k_foldl e _ hex body hS0
+    have := ks_foldl e _ hsx hex body hd hS0.2 hS0.1
     refine ⟨?_, by rw [he]; exact this.key, h.ex⟩
     rw [hc]
     show rCount e ((List.foldl ex S0 body).log ++ [Ev.s e' x]) = _
@@ -256,45 +356,57 @@ theorem pushEager_effs_length (st : St) (b : Nat) (k : EffKind) :
     (pushEager st b k).effs.length = st.effs.length + 1 := by
   unfold pushEager; simp
 
-theorem k_newRender {e : Nat} {ex : St → BOp → St} (hex : Kex e ex) {a st : St} (h : K e a st) (b : Nat) :
+theorem k_newRender {e : Nat} {ex : St → BOp → St} (hex : Kex e ex) (hsx : SRex ex) {a st : St}
+    (hd : EffDead a e) (hs : SR a st) (h : K e a st) (b : Nat) :
     K e a (newRender ex st b) := by
   unfold newRender
   have hne : st.effs.length ≠ e := by have := h.lt; omega
-  exact k_addTask (k_runScoped hex (k_pushEager h _ _) _ _ _ hne) _
+  exact k_addTask (k_runScoped hex hsx hd (sr_pushEager hs _ _) (k_pushEager h _ _) _ _ _ hne) _
 
-theorem k_newAsync {e : Nat} {ex : St → BOp → St} (hex : Kex e ex) {a st : St} (h : K e a st) (b : Nat) :
+theorem k_newAsync {e : Nat} {ex : St → BOp → St} (hex : Kex e ex) (hsx : SRex ex) {a st : St}
+    (hd : EffDead a e) (hs : SR a st) (h : K e a st) (b : Nat) :
     K e a (newAsync ex st b) := by
   unfold newAsync
   have hne : st.effs.length ≠ e := by have := h.lt; omega
-  exact k_finishAsync (k_addTask (k_runScoped hex (k_pushEager h _ _) _ _ _ hne) _) _ hne
+  have h1 : K e a (setMutDepth (pushEager st b EffKind.async) (st.mutDepth + 1)) :=
+    K.same (st := pushEager st b EffKind.async) (k_pushEager h _ _) rfl rfl
+  have s1 : SR a (setMutDepth (pushEager st b EffKind.async) (st.mutDepth + 1)) :=
+    SR.react (st := pushEager st b EffKind.async) (sr_pushEager hs _ _) rfl
+  have h2 := k_runScoped hex hsx hd s1 h1 st.effs.length (eagerOwner st) b hne
+  refine k_finishAsync (k_addTask ?_ _) _ hne
+  exact K.same h2 rfl rfl
 
-theorem k_runMemo {e : Nat} {ex : St → BOp → St} (hex : Kex e ex) {a st : St} (h : K e a st) (m : Nat) :
+theorem k_runMemo {e : Nat} {ex : St → BOp → St} (hex : Kex e ex) (hsx : SRex ex) {a st : St}
+    (hd : EffDead a e) (hs : SR a st) (h : K e a st) (m : Nat) :
     K e a (runMemo ex st m) := by
   unfold runMemo
   split
   · exact h
   · next mr _ =>
     simp only
-    have key : ∀ (body : List BOp) (S0 : St), K e a S0 → ∀ S1 : St,
+    have key : ∀ (body : List BOp) (S0 : St), K e a S0 ∧ SR a S0 → ∀ S1 : St,
         S1.toCore = popCur (List.foldl ex S0 body).toCore 1 →
         S1.effs = (List.foldl ex S0 body).effs → K e a S1 := by
       intro body S0 h0 S1 hc he
-      have := k_foldl e _ hex body h0
+      have := ks_foldl e _ hsx hex body hd h0.2 h0.1
       exact ⟨by rw [hc]; exact this.rc, by rw [he]; exact this.key, h.ex⟩
     have h0 : ∀ S0 : St, S0.toCore = logEv (pushCur (cleanupOwner st.toCore mr.owner) mr.owner) (Ev.m m) →
-        S0.effs = st.effs → K e a S0 := by
+        S0.effs = st.effs → K e a S0 ∧ SR a S0 := by
       intro S0 hc he
-      refine ⟨?_, by rw [he]; exact h.key, h.ex⟩
-      rw [hc]
-      show rCount e ((cleanupOwner st.toCore mr.owner).log ++ [Ev.m m]) = _
-      rw [rCount_snoc_ne e _ _ (by intro hh; cases hh), rc_cleanupOwner]; exact h.rc
+      refine ⟨⟨?_, by rw [he]; exact h.key, h.ex⟩, ?_⟩
+      · rw [hc]
+        show rCount e ((cleanupOwner st.toCore mr.owner).log ++ [Ev.m m]) = _
+        rw [rCount_snoc_ne e _ _ (by intro hh; cases hh), rc_cleanupOwner]; exact h.rc
+      · unfold SR; rw [hc]
+        exact CR.logEv (CR.pushCur (CR.cleanupOwner hs _) _) _ rfl
     split
     · refine key _ _ ?_ _ rfl rfl
       exact h0 _ rfl rfl
     · refine key _ _ ?_ _ rfl rfl
       exact h0 _ rfl rfl
 
-theorem k_getMemo {e : Nat} {ex : St → BOp → St} (hex : Kex e ex) {a st : St} (h : K e a st) (m : Nat) :
+theorem k_getMemo {e : Nat} {ex : St → BOp → St} (hex : Kex e ex) (hsx : SRex ex) {a st : St}
+    (hd : EffDead a e) (hs : SR a st) (h : K e a st) (m : Nat) :
     K e a (getMemo ex st m) := by
   unfold getMemo
   split
@@ -307,7 +419,7 @@ theorem k_getMemo {e : Nat} {ex : St → BOp → St} (hex : Kex e ex) {a st : St
     apply key
     split
     · split
-      · exact k_runMemo hex h _
+      · exact k_runMemo hex hsx hd hs h _
       · exact h
     · exact h
   · refine ⟨?_, h.key, h.ex⟩
@@ -324,15 +436,140 @@ theorem rc_takeCtx (e : Nat) (c : Core) (ty : Nat) : rCount e (takeCtx c ty).log
   · simp only; rw [modOwner_log]; exact rCount_snoc_ne e _ _ (by intro hh; cases hh)
   · exact rCount_snoc_ne e _ _ (by intro hh; cases hh)
 
-theorem k_execWith {e : Nat} {ex : St → BOp → St} (hex : Kex e ex) : Kex e (execWith ex) := by
-  intro a st op h
+/-! ### `ImmediateEffect`s -/
+
+theorem k_immBegin {e : Nat} {a st : St} (h : K e a st) (e' : Nat) (er : EffRec) (hne : e' ≠ e) :
+    K e a (immBegin st e' er) := by
+  unfold immBegin
+  exact (k_clearSources h (Sub.eff e') er.sources).setOther rfl e' _ hne rfl
+
+theorem k_immEnd {e : Nat} {a st : St} (h : K e a st) (e' rc : Nat) (hne : e' ≠ e) : K e a (immEnd st e' rc) := by
+  unfold immEnd
+  split
+  · exact h
+  · exact h.setOther rfl e' _ hne rfl
+
+theorem k_immRelease {e : Nat} {a st : St} (h : K e a st) (e' : Nat) : K e a (immRelease st e') := by
+  unfold immRelease
+  split
+  · split
+    · exact k_releaseOwner h _
+    · exact h
+  · exact h
+
+/-- an update of another `ImmediateEffect` -/
+theorem k_immUpdate {e : Nat} {ex : St → BOp → St} (hex : Kex e ex) (hsx : SRex ex) {a st : St}
+    (hd : EffDead a e) (hs : SR a st) (h : K e a st) (e' : Nat) (hne : e' ≠ e) :
+    K e a (immUpdate ex st e') := by
+  unfold immUpdate
+  split
+  · exact h
+  · next er _ =>
+    split
+    · exact h
+    · simp only
+      refine k_immRelease (k_immEnd ?_ _ _ hne) _
+      refine K.same (st := runScoped ex _ e' er.owner er.body) (k_runScoped hex hsx hd ?_ ?_ _ _ _ hne) rfl rfl
+      · exact SR.react (st := immBegin st e' er) (sr_immBegin hs e' er) rfl
+      · exact K.same (st := immBegin st e' er) (k_immBegin h e' er hne) rfl rfl
+
+theorem k_immScope {e : Nat} {a st : St} (h : K e a st) (e' : Nat) (hne : e' ≠ e) : K e a (immScope st e') := by
+  unfold immScope
+  split
+  · exact h
+  · next er _ =>
+    split
+    · have h1 : K e a (st.lift (regCleanup · (immTag e') false (some er.owner))) :=
+        h.core _ (by rw [regCleanup_log])
+      exact h1.setOther rfl e' _ hne rfl
+    · refine k_releaseOwner ?_ _
+      exact h.setOther rfl e' _ hne rfl
+
+theorem k_newImm {e : Nat} {ex : St → BOp → St} (hex : Kex e ex) (hsx : SRex ex) {a st : St}
+    (hd : EffDead a e) (hs : SR a st) (h : K e a st) (b : Nat) (sc mutf : Bool) :
+    K e a (newImm ex st b sc mutf) := by
+  unfold newImm
+  simp only
+  have hne : st.effs.length ≠ e := by have := h.lt; omega
+  have h1 := k_immUpdate hex hsx hd (sr_pushEager hs b (EffKind.imm sc mutf)) (k_pushEager h b (EffKind.imm sc mutf))
+    st.effs.length hne
+  split
+  · exact k_immScope h1 _ hne
+  · exact h1
+
+theorem k_markSub {e : Nat} {ex : St → BOp → St} (hex : Kex e ex) (hsx : SRex ex) (a st : St) (s : Sub)
+    (hd : EffDead a e) (hs : SR a st) (h : K e a st) : K e a (markSub ex st s) := by
+  unfold markSub
+  split
+  · next e' =>
+    split
+    · next er her =>
+      split
+      · next hlive =>
+        split
+        · have hne : e' ≠ e := by
+            intro he; subst he
+            rw [effLive_false_of_dead (hd.of_K h hs)] at hlive; cases hlive
+          refine k_immUpdate hex hsx hd ?_ ?_ e' hne
+          · exact hs.react rfl
+          · exact h.setOther rfl e' _ hne rfl
+        · exact h.effs_ok rfl (set_key_ok _ _ _ _ her (fun hh => ⟨hh, rfl, rfl, rfl⟩))
+      · exact h
+    · exact h
+  · split
+    · split
+      · exact h.same rfl rfl
+      · exact h
+    · exact h
+
+theorem k_setSig {e : Nat} {ex : St → BOp → St} (hex : Kex e ex) (hsx : SRex ex) {a st : St}
+    (hd : EffDead a e) (hs : SR a st) (h : K e a st) (s : Nat) (v : Int) : K e a (setSig ex st s v) := by
+  unfold setSig
+  split
+  · split
+    · refine ks_foldl e _ (sr_markSub hsx) (k_markSub hex hsx) _ hd ?_ ?_
+      · exact hs.react rfl
+      · exact h.same rfl rfl
+    · exact h
+  · exact h
+
+theorem k_writeSig {e : Nat} {ex : St → BOp → St} (hex : Kex e ex) (hsx : SRex ex) {a st : St}
+    (hd : EffDead a e) (hs : SR a st) (h : K e a st) (s v : Nat) : K e a (writeSig ex st s v) := by
+  unfold writeSig
+  split
+  · exact h
+  · split
+    · split
+      · exact k_setSig hex hsx hd hs h _ _
+      · exact h
+    · exact h
+
+/-! ### scoped tasks -/
+
+theorem rc_captureOwner (e : Nat) (c : Core) : rCount e (captureOwner c).1.log = rCount e c.log := by
+  unfold captureOwner
+  split
+  · rfl
+  · rw [newOwnerUnder_log]
+
+theorem k_newTask {e : Nat} {a st : St} (h : K e a st) (b : Nat) (cancel : Bool) : K e a (newTask st b cancel) := by
+  unfold newTask
+  simp only
+  refine h.pushEff ?_ _ rfl
+  split
+  · show rCount e (captureOwner (regCleanup st.toCore _ false none)).1.log = _
+    rw [rc_captureOwner, regCleanup_log]
+  · exact rc_captureOwner e _
+
+theorem k_execWith {e : Nat} {ex : St → BOp → St} (hex : Kex e ex) (hsx : SRex ex) : Kex e (execWith ex) := by
+  intro a st op hd hs h
   cases op with
   | read s => exact k_readSig h s
   | get m =>
     simp only [execWith]
     split
     · exact h
-    · exact k_getMemo hex h _
+    · exact k_getMemo hex hsx hd hs h _
   | cleanup tag => exact h.core (regCleanup · tag false none) (by rw [regCleanup_log])
   | nested tag => exact h.core (regCleanup · tag true none) (by rw [regCleanup_log])
   | item v => exact h.core (newStored · v) (by rw [newStored_log])
@@ -344,21 +581,28 @@ theorem k_execWith {e : Nat} {ex : St → BOp → St} (hex : Kex e ex) : Kex e (
   | memo b => exact k_newMemo h b
   | newOwner => exact k_newOwnerHandle h
   | watch b hb imm => exact k_newEffect h b _
-  | render b => exact k_newRender hex h b
-  | async b => exact k_newAsync hex h b
+  | render b => exact k_newRender hex hsx hd hs h b
+  | async b => exact k_newAsync hex hsx hd hs h b
+  | imm b sc mutf => exact k_newImm hex hsx hd hs h b sc mutf
+  | write s v => exact k_writeSig hex hsx hd hs h s v
+  | spawn b cancel =>
+    simp only [execWith]
+    split
+    · exact h
+    · exact k_newTask h b cancel
 
 theorem k_exec (e : Nat) (f : Nat) : Kex e (exec f) := by
   induction f with
   | zero =>
-    intro a st op h
+    intro a st op hd hs h
     simp only [exec]
-    exact k_execWith (fun _ _ _ h => h) a st op h
+    exact k_execWith (fun _ _ _ _ _ h => h) (fun _ _ _ h => h) a st op hd hs h
   | succ n ih =>
-    intro a st op h
+    intro a st op hd hs h
     simp only [exec]
-    exact k_execWith ih a st op h
+    exact k_execWith ih (sr_exec n) a st op hd hs h
 
-theorem k_execBOp (e : Nat) (a st : St) (op : BOp) (h : K e a st) : K e a (execBOp st op) := k_exec e _ a st op h
+theorem k_execBOp (e : Nat) : Kex e execBOp := fun a st op hd hs h => k_exec e _ a st op hd hs h
 
 theorem k_execHandlerTok (e : Nat) (a st : St) (op : BOp) (h : K e a st) : K e a (execHandlerTok st op) := by
   cases op with
@@ -378,6 +622,9 @@ theorem k_execHandlerTok (e : Nat) (a st : St) (op : BOp) (h : K e a st) : K e a
   | watch b hb imm => exact h
   | render b => exact h
   | async b => exact h
+  | imm b sc mutf => exact h
+  | write s v => exact h
+  | spawn b cancel => exact h
 
 theorem k_runHandlerOld {e : Nat} {a st : St} (h : K e a st) (e' hb : Nat) : K e a (runHandlerOld st e' hb) := by
   unfold runHandlerOld
@@ -424,9 +671,8 @@ theorem k_endTask {e : Nat} {a st : St} (h : K e a st) (e' : Nat) : K e a (endTa
   unfold endTask
   split
   · next er her =>
-    have h1 : K e a { st with effs := st.effs.set e' { er with woken := false, done := true } } :=
-      h.effs_ok rfl (set_key_ok _ _ _ _ her (fun hh => ⟨hh, rfl⟩))
-    exact h1.core (dropOwner · er.owner) (rc_dropOwner e _ _)
+    refine k_releaseOwner ?_ _
+    exact h.effs_ok rfl (set_key_ok _ _ _ _ her (fun hh => ⟨hh, rfl, rfl, rfl⟩))
   · exact h
 
 theorem k_prepRun {e : Nat} {a st : St} (h : K e a st) (e' : Nat) (er : EffRec) (her : st.effs[e']? = some er) :
@@ -434,8 +680,9 @@ theorem k_prepRun {e : Nat} {a st : St} (h : K e a st) (e' : Nat) (er : EffRec) 
   unfold prepRun
   simp only
   split
-  · exact h.effs_ok rfl (set_key_ok _ _ _ _ her (fun hh => ⟨hh, rfl⟩))
-  · exact (k_clearSources h (Sub.eff e') er.sources).effs_ok rfl (set_key_ok _ _ _ _ her (fun hh => ⟨hh, rfl⟩))
+  · exact h.effs_ok rfl (set_key_ok _ _ _ _ her (fun hh => ⟨hh, rfl, rfl, rfl⟩))
+  · exact (k_clearSources h (Sub.eff e') er.sources).effs_ok rfl
+      (set_key_ok _ _ _ _ her (fun hh => ⟨hh, rfl, rfl, rfl⟩))
 
 theorem k_afterRun {e : Nat} {a st : St} (h : K e a st) (e' : Nat) (er : EffRec) : K e a (afterRun st e' er) := by
   unfold afterRun
@@ -446,94 +693,139 @@ theorem k_afterRun {e : Nat} {a st : St} (h : K e a st) (e' : Nat) (er : EffRec)
   · exact h
 
 /-- a run of another effect -/
-theorem k_runEffect {e : Nat} {a st : St} (h : K e a st) (e' : Nat) (er : EffRec) (hne : e' ≠ e)
-    (her : st.effs[e']? = some er) : K e a (runEffect st e' er) := by
+theorem k_runEffect {e : Nat} {a st : St} (hd : EffDead a e) (hs : SR a st) (h : K e a st) (e' : Nat)
+    (er : EffRec) (hne : e' ≠ e) (her : st.effs[e']? = some er) : K e a (runEffect st e' er) := by
   unfold runEffect
-  exact k_afterRun (k_runScoped (k_execBOp e) (k_prepRun h e' er her) _ _ _ hne) _ _
+  exact k_afterRun (k_runScoped (k_execBOp e) sr_execBOp hd (sr_prepRun hs _ _) (k_prepRun h e' er her) _ _ _ hne) _ _
 
-/-- the entry of effect `e` is gone: no strong reference outside the arena, and the arena key (if it
-ever had one) is dead -/
-def EffDead (st : St) (e : Nat) : Prop :=
-  ∃ er, st.effs[e]? = some er ∧ er.held = false ∧ ∀ k, er.key = some k → KeyDead st.arena k
+/-- a segment of another scoped task -/
+theorem k_runSeg {e : Nat} {ex : St → BOp → St} (hex : Kex e ex) (hsx : SRex ex) {a st : St}
+    (hd : EffDead a e) (hs : SR a st) (h : K e a st) (e' : Nat) (er : EffRec) (hne : e' ≠ e) :
+    K e a (runSeg ex st e' er) := by
+  unfold runSeg
+  simp only
+  have h0 : ∀ S0 : St, S0.toCore = logEv (pushCur st.toCore er.owner) (Ev.r e') →
+      S0.effs = st.effs → K e a S0 ∧ SR a S0 := by
+    intro S0 hc he
+    refine ⟨⟨?_, by rw [he]; exact h.key, h.ex⟩, ?_⟩
+    · rw [hc]
+      show rCount e (st.log ++ [Ev.r e']) = _
+      rw [rCount_snoc_ne e _ _ (by intro hh; cases hh; exact hne rfl)]; exact h.rc
+    · unfold SR; rw [hc]
+      exact CR.logEv (CR.pushCur hs _) _ rfl
+  have key : ∀ (body : List BOp) (S0 : St), K e a S0 ∧ SR a S0 → ∀ S1 : St,
+      (∃ x, S1.toCore = popCur (logEv (List.foldl ex S0 body).toCore (Ev.s e' x)) 1) →
+      S1.effs = (List.foldl ex S0 body).effs → K e a S1 := by
+    intro body S0 hS0 S1 ⟨x, hc⟩ he
+    have := ks_foldl e _ hsx hex body hd hS0.2 hS0.1
+    refine ⟨?_, by rw [he]; exact this.key, h.ex⟩
+    rw [hc]
+    show rCount e ((List.foldl ex S0 body).log ++ [Ev.s e' x]) = _
+    rw [rCount_snoc_ne e _ _ (by intro hh; cases hh)]; exact this.rc
+  refine key _ _ ?_ _ ⟨_, rfl⟩ rfl
+  exact h0 _ rfl rfl
 
-theorem effLive_false_of_dead {st : St} {e : Nat} (h : EffDead st e) : effLive st e = false := by
-  obtain ⟨er, h1, h2, h3⟩ := h
-  unfold effLive; rw [h1]
-  simp only [h2, Bool.false_or]
-  unfold keyLive
-  cases hk : er.key with
-  | none => rfl
-  | some k => simp [(h3 k hk).get_none]
+theorem k_finishTask {e : Nat} {a st : St} (h : K e a st) (e' : Nat) : K e a (finishTask st e') := by
+  unfold finishTask
+  split
+  · next er her =>
+    refine k_releaseOwner ?_ _
+    exact h.effs_ok rfl (set_key_ok _ _ _ _ her (fun _ => ⟨rfl, rfl, rfl, rfl⟩))
+  · exact h
 
-/-- polling a task: either another effect's, or `e`'s own while its entry is dead -/
-theorem k_pollEff {e : Nat} {a st : St} (h : K e a st) (e' : Nat)
-    (hdead : e' = e → effLive st e = false) : K e a (pollEff st e') := by
-  unfold pollEff
+theorem k_afterSeg {e : Nat} {a st : St} (h : K e a st) (e' : Nat) : K e a (afterSeg st e') := by
+  unfold afterSeg
+  split
+  · next er her =>
+    split
+    · exact k_finishTask h _
+    · exact h.effs_ok rfl (set_key_ok _ _ _ _ her (fun hh => ⟨hh, rfl, rfl, rfl⟩))
+  · exact h
+
+/-- polling a scoped task: another one, or `e` itself while it is dead (aborted / over) -/
+theorem k_pollTask {e : Nat} {a st : St} (hd : EffDead a e) (hs : SR a st) (h : K e a st) (e' : Nat)
+    (er : EffRec) (her : st.effs[e']? = some er) : K e a (pollTask st e' er) := by
+  unfold pollTask
+  split
+  · exact k_finishTask h _
+  · next hlive =>
+    have hne : e' ≠ e := by
+      intro he; subst he
+      rw [effLive_false_of_dead (hd.of_K h hs)] at hlive; simp at hlive
+    refine k_afterSeg (k_runSeg (k_execBOp e) sr_execBOp hd ?_ ?_ e' er hne) _
+    · exact hs.react rfl
+    · exact h.effs_ok rfl (set_key_ok _ _ _ _ her (fun hh => ⟨hh, rfl, rfl, rfl⟩))
+
+/-- one iteration of a task's loop: either another effect's, or `e`'s own while its entry is dead -/
+theorem k_pollIter {e : Nat} {a st : St} (hd : EffDead a e) (hs : SR a st) (h : K e a st) (e' : Nat) :
+    K e a (pollIter st e') := by
+  unfold pollIter
   split
   · exact h
   · next er her =>
     split
     · exact h
     · split
-      · exact k_endTask h _
-      · next hlive =>
-        have hne : e' ≠ e := by
-          intro he; subst he
-          rw [hdead rfl] at hlive; simp at hlive
-        split
-        · exact h.effs_ok rfl (set_key_ok _ _ _ _ her (fun hh => ⟨hh, rfl⟩))
-        · split
-          · exact h.effs_ok rfl (set_key_ok _ _ _ _ her (fun hh => ⟨hh, rfl⟩))
+      · exact k_pollTask hd hs h e' er her
+      · split
+        · exact k_endTask h _
+        · next hlive =>
+          have hne : e' ≠ e := by
+            intro he; subst he
+            rw [effLive_false_of_dead (hd.of_K h hs)] at hlive; simp at hlive
+          split
+          · exact h.effs_ok rfl (set_key_ok _ _ _ _ her (fun hh => ⟨hh, rfl, rfl, rfl⟩))
           · split
-            · exact k_endTask (k_runEffect h e' er hne her) _
-            · exact k_runEffect h e' er hne her
+            · exact h.effs_ok rfl (set_key_ok _ _ _ _ her (fun hh => ⟨hh, rfl, rfl, rfl⟩))
+            · split
+              · exact k_endTask (k_runEffect hd hs h e' er hne her) _
+              · exact k_runEffect hd hs h e' er hne her
 
-theorem k_markSub (e : Nat) (a st : St) (s : Sub) (h : K e a st) : K e a (markSub st s) := by
-  unfold markSub
+theorem k_rewake {e : Nat} {a st : St} (h : K e a st) (e' : Nat) : K e a (rewake st e') := by
+  unfold rewake
   split
-  · next e' =>
-    split
-    · next er her =>
-      split
-      · exact h.effs_ok rfl (set_key_ok _ _ _ _ her (fun hh => ⟨hh, rfl⟩))
-      · exact h
-    · exact h
-  · split
-    · split
-      · exact h.same rfl rfl
-      · exact h
-    · exact h
-
-theorem k_setSig {e : Nat} {a st : St} (h : K e a st) (s : Nat) (v : Int) : K e a (setSig st s v) := by
-  unfold setSig
-  split
-  · split
-    · exact k_foldl e _ (k_markSub e) _ (h.same rfl rfl)
-    · exact h
+  · next er her => exact h.effs_ok rfl (set_key_ok _ _ _ _ her (fun hh => ⟨hh, rfl, rfl, rfl⟩))
   · exact h
 
-theorem k_dropHandle (e : Nat) (a st : St) (hd : Nat) (h : K e a st) : K e a (dropHandle st hd) := by
+theorem k_pollLoop {e : Nat} (n : Nat) {a st : St} (hd : EffDead a e) (hs : SR a st) (h : K e a st) (e' : Nat) :
+    K e a (pollLoop n st e') := by
+  induction n generalizing st with
+  | zero => exact h
+  | succ n ih =>
+    simp only [pollLoop]
+    split
+    · exact k_rewake (ih (sr_pollIter hs e') (k_pollIter hd hs h e')) e'
+    · exact k_pollIter hd hs h e'
+
+theorem k_pollEff {e : Nat} {a st : St} (hd : EffDead a e) (hs : SR a st) (h : K e a st) (e' : Nat) :
+    K e a (pollEff st e') := k_pollLoop _ hd hs h e'
+
+theorem k_dropHandle {e : Nat} (a st : St) (hd : Nat) (h : K e a st) : K e a (dropHandle st hd) := by
   unfold dropHandle
   split
   · next o _ =>
-    have h1 : K e a { st with hOwners := st.hOwners.set hd none } := h.same rfl rfl
-    exact h1.core (dropOwner · o) (rc_dropOwner e _ _)
+    refine k_releaseOwner ?_ o
+    exact h.same rfl rfl
   · exact h
 
-theorem k_runWc {e : Nat} {a st : St} (h : K e a st) (o b : Nat) : K e a (runWc st o b) := by
+theorem k_runWc {e : Nat} {a st : St} (hd : EffDead a e) (hs : SR a st) (h : K e a st) (o b : Nat) :
+    K e a (runWc st o b) := by
   unfold runWc
   simp only
-  have h0 : ∀ S0 : St, S0.toCore = pushCur (cleanupOwner st.toCore o) o → S0.effs = st.effs → K e a S0 := by
+  have h0 : ∀ S0 : St, S0.toCore = pushCur (cleanupOwner st.toCore o) o → S0.effs = st.effs →
+      K e a S0 ∧ SR a S0 := by
     intro S0 hc he
-    refine ⟨?_, by rw [he]; exact h.key, h.ex⟩
-    rw [hc]
-    show rCount e (cleanupOwner st.toCore o).log = _
-    rw [rc_cleanupOwner]; exact h.rc
-  have key : ∀ (body : List BOp) (S0 : St), K e a S0 → ∀ S1 : St,
+    refine ⟨⟨?_, by rw [he]; exact h.key, h.ex⟩, ?_⟩
+    · rw [hc]
+      show rCount e (cleanupOwner st.toCore o).log = _
+      rw [rc_cleanupOwner]; exact h.rc
+    · unfold SR; rw [hc]
+      exact CR.pushCur (CR.cleanupOwner hs _) _
+  have key : ∀ (body : List BOp) (S0 : St), K e a S0 ∧ SR a S0 → ∀ S1 : St,
       S1.toCore = popCur (List.foldl execBOp S0 body).toCore 1 →
       S1.effs = (List.foldl execBOp S0 body).effs → K e a S1 := by
     intro body S0 hS0 S1 hc he
-    have := k_foldl e _ (k_execBOp e) body hS0
+    have := ks_foldl e _ sr_execBOp (k_execBOp e) body hd hS0.2 hS0.1
     exact ⟨by rw [hc]; exact this.rc, by rw [he]; exact this.key, h.ex⟩
   refine key _ _ ?_ _ rfl rfl
   exact h0 _ rfl rfl
@@ -547,26 +839,24 @@ theorem k_disposeEff {e : Nat} {a st st' : St} (h : K e a st) {i : Nat} (hd : di
     · next k _ =>
       simp only [Option.some.injEq] at hd; subst hd
       exact h.core (disposeKey · k) (rc_disposeKey e _ _)
-    · simp only [Option.some.injEq] at hd; subst hd
-      exact h.effs_ok rfl (set_key_ok _ _ _ _ her (fun hh => ⟨rfl, rfl⟩))
+    · split at hd
+      · cases hd
+      · split at hd
+        · simp only [Option.some.injEq] at hd; subst hd
+          refine k_releaseOwner ?_ _
+          exact h.effs_ok rfl (set_key_ok _ _ _ _ her (fun _ => ⟨rfl, rfl, rfl, rfl⟩))
+        · simp only [Option.some.injEq] at hd; subst hd
+          exact h.effs_ok rfl (set_key_ok _ _ _ _ her (fun _ => ⟨rfl, rfl, rfl, rfl⟩))
   · cases hd
 
-/-! ### the effect's entry stays dead -/
-
-theorem EffDead.of_K {e : Nat} {a st : St} (hd : EffDead a e) (hk : K e a st) (hs : SR a st) : EffDead st e := by
-  obtain ⟨er, h1, h2, h3⟩ := hd
-  obtain ⟨er', h4, h5⟩ := hk.key er h1
-  obtain ⟨h6, h7⟩ := h5 h2
-  refine ⟨er', h4, h6, fun k hk' => ?_⟩
-  rw [h7] at hk'
-  exact (ArenaLe.reach hs).dead _ (h3 k hk')
+/-! ### histories -/
 
 theorem k_pollNth {e : Nat} {a st : St} (h : K e a st) (hs : SR a st) (hd : EffDead a e) (i : Nat) :
     K e a (pollNth st i) := by
   unfold pollNth
   simp only
   split
-  · next e' _ => exact k_pollEff h e' (fun _ => effLive_false_of_dead (hd.of_K h hs))
+  · next e' _ => exact k_pollEff hd hs h e'
   · exact h
 
 theorem k_runIdle {e : Nat} (n : Nat) {a st : St} (h : K e a st) (hs : SR a st) (hd : EffDead a e) :
@@ -592,7 +882,7 @@ theorem k_stepOp {e : Nat} {a st st' : St} {op : Op} (h : K e a st) (hs : SR a s
       cases x with
       | x b =>
         simp only [Option.map_some, Option.some.injEq] at hop; subst hop
-        exact (k_execBOp e a _ b h1).core (popCur · os.length) rfl
+        exact (k_execBOp e a (st.lift (pushAll · os)) b hd (CR.pushAll hs os) h1).core (popCur · os.length) rfl
       | cleanup hh =>
         simp only at hop
         split at hop
@@ -607,7 +897,7 @@ theorem k_stepOp {e : Nat} {a st st' : St} {op : Op} (h : K e a st) (hs : SR a s
         split at hop
         · next o _ =>
           simp only [Option.map_some, Option.some.injEq] at hop; subst hop
-          exact (k_runWc h1 o b).core (popCur · os.length) rfl
+          exact (k_runWc (st := st.lift (pushAll · os)) hd (CR.pushAll hs os) h1 o b).core (popCur · os.length) rfl
         · simp at hop
   | child hh =>
     simp only [stepOp] at hop
@@ -622,7 +912,7 @@ theorem k_stepOp {e : Nat} {a st st' : St} {op : Op} (h : K e a st) (hs : SR a s
   | drop hh =>
     simp only [stepOp] at hop
     split at hop
-    · simp only [Option.some.injEq] at hop; subst hop; exact k_dropHandle e _ _ _ h
+    · simp only [Option.some.injEq] at hop; subst hop; exact k_dropHandle _ _ _ h
     · cases hop
   | dispose k i =>
     have plain : ∀ key : Key, K e a (st.lift (disposeKey · key)) :=
@@ -647,7 +937,7 @@ theorem k_stepOp {e : Nat} {a st st' : St} {op : Op} (h : K e a st) (hs : SR a s
   | set s v =>
     simp only [stepOp] at hop
     split at hop
-    · simp only [Option.some.injEq] at hop; subst hop; exact k_setSig h _ _
+    · simp only [Option.some.injEq] at hop; subst hop; exact k_setSig (k_execBOp e) sr_execBOp hd hs h _ _
     · cases hop
   | pause hh =>
     simp only [stepOp] at hop
@@ -665,7 +955,7 @@ theorem k_stepOp {e : Nat} {a st st' : St} {op : Op} (h : K e a st) (hs : SR a s
   | idle => simp only [stepOp, Option.some.injEq] at hop; subst hop; exact k_runIdle _ h hs hd
   | «end» =>
     simp only [stepOp, Option.some.injEq] at hop; subst hop
-    exact k_runIdle _ (k_foldl e _ (k_dropHandle e) _ h) (sr_foldl _ sr_dropHandle _ hs) hd
+    exact k_runIdle _ (k_foldl e _ k_dropHandle _ h) (sr_foldl _ sr_dropHandle _ hs) hd
 
 theorem k_runOps {e : Nat} {a st : St} (h : K e a st) (hs : SR a st) (hd : EffDead a e) (ops : List Op) :
     K e a (runOps st ops) := by
@@ -676,9 +966,5 @@ theorem k_runOps {e : Nat} {a st : St} (h : K e a st) (hs : SR a st) (hd : EffDe
     cases hop : stepOp st op with
     | none => simpa using ih h hs
     | some st' => simpa using ih (k_stepOp h hs hd hop) (sr_stepOp hs hop)
-
-theorem EffDead.lt {st : St} {e : Nat} (h : EffDead st e) : e < st.effs.length := by
-  obtain ⟨er, h1, _⟩ := h
-  exact lt_of_getElem?_some h1
 
 end Leptos.Owner
